@@ -166,6 +166,11 @@ impl BuiltInFunction {
                     unreachable!()
                 };
 
+                if v.0.borrow().is_empty() {
+                    // the callback bridge always asks for a first element
+                    return Ok((Some(Primitive::Vector(GcVector::default())), None));
+                }
+
                 #[derive(Debug)]
                 struct MapOp {
                     callback_path: String,
@@ -243,6 +248,11 @@ impl BuiltInFunction {
                 let Some(Primitive::Vector(v)) = arguments.first() else {
                     unreachable!()
                 };
+
+                if v.0.borrow().is_empty() {
+                    // the callback bridge always asks for a first element
+                    return Ok((Some(Primitive::Vector(GcVector::default())), None));
+                }
 
                 #[derive(Debug)]
                 struct FilterOp {
